@@ -136,6 +136,16 @@ C09Live(i) == LET nd == Nd(i) IN
   nd.a = "Block" => \A v \in Range(Post(nd).vaults) :
      BadBlocks(i, v.id) <= 2 * CeilDiv(MaxLen(i, v.id), Cfg(nd).batch)
 
+(* the same bounded response for the first-generation sweep, whose "blocks" are the runs of x/liquidation's begin blocker (V1Sweep) *)
+RECURSIVE BadSweepsV1(_, _)
+BadSweepsV1(i, vid) ==
+  LET nd == Nd(i) IN
+  IF IsRoot(nd) \/ ~StillBad(Cfg(nd), Post(nd), vid) \/ ~StillBad(Cfg(nd), Pre(nd), vid) THEN 0
+  ELSE (IF nd.a = "V1Sweep" /\ Ok(nd) THEN 1 ELSE 0) + BadSweepsV1(nd.parent, vid)
+C09LiveV1(i) == LET nd == Nd(i) IN
+  nd.a = "V1Sweep" => \A v \in Range(Post(nd).vaults) :
+     BadSweepsV1(i, v.id) <= 2 * CeilDiv(MaxLen(i, v.id), Cfg(nd).v1.batch)
+
 (* ------------------------------------ C10 ------------------------------------ *)
 BidOk(nd) == nd.a = "Bid" /\ Ok(nd) /\ nd.args.v \in AuctionIds(Pre(nd))
 BidAuction(nd) == AuctionById(Pre(nd), nd.args.v)
@@ -246,7 +256,7 @@ Formulas == <<"C01_Custody", "C01_Count", "C01_TotalsColl", "C01_TotalsMinted", 
               "C09_OnlyUnsafe", "C09_SeizeExact", "C09_CustodyMoves", "C09_Live",
               "C10_PaidWithinTarget", "C10_ReceivedWithinSeized", "C10_PostedPrice", "C10_PriceFalls", "C10_PriceInBand",
               "C10_StartPrice", "C10_CustodyColl", "C10_CustodyDebt", "C10_OwnerGetsRest", "C10_PenaltyRouted", "C10_ExternalProceeds",
-              "C02_BurnAtClose_V1", "C09_SeizeExact_V1", "C09_CustodyMoves_V1",
+              "C02_BurnAtClose_V1", "C09_SeizeExact_V1", "C09_CustodyMoves_V1", "C09_Live_V1",
               "C10_PostedPrice_V1", "C10_BidBooked_V1", "C10_PriceNotAboveStart_V1", "C10_PriceNotBelowEnd_V1", "C10_PriceFloor_V1", "C10_StartPrice_V1", "C10_CustodyColl_V1", "C10_CustodyDebt_V1", "C10_PenaltyRouted_V1",
               "Conf_Vault", "Conf_Block", "Conf_V1Sweep", "Conf_V1Liquidate">>
 Holds(f, i) ==
@@ -284,6 +294,7 @@ Holds(f, i) ==
     [] f = "C02_BurnAtClose_V1" -> C02BurnAtCloseV1(nd)
     [] f = "C09_SeizeExact_V1" -> C09SeizeExactV1(nd)
     [] f = "C09_CustodyMoves_V1" -> C09CustodyMovesV1(nd)
+    [] f = "C09_Live_V1" -> C09LiveV1(i)
     [] f = "C10_PostedPrice_V1" -> C10PostedPriceV1(nd)
     [] f = "C10_BidBooked_V1" -> C10BidBookedV1(nd)
     [] f = "C10_PriceNotAboveStart_V1" -> C10PriceNotAboveStartV1(nd)
@@ -332,6 +343,7 @@ Stats == PrintT(<<"STATS", [nodes |-> NLog,
    v1PriceMoves |-> Cnt(LAMBDA nd : nd.a = "V1Tick" /\ \E a \in Range(Post(nd).auctionsV1) : a.id \in V1AuctionIds(Pre(nd)) /\ V1AuctionById(Pre(nd), a.id).start = a.start /\ ~LEq(a.price, V1AuctionById(Pre(nd), a.id).price)),
    v1EndPriceHits |-> Cnt(LAMBDA nd : nd.a = "V1Tick" /\ \E a \in V1Posted(nd) : Post(nd).t = a.end),
    v1Restarts |-> Cnt(LAMBDA nd : nd.a = "V1Tick" /\ \E a \in Range(Post(nd).auctionsV1) : a.id \in V1AuctionIds(Pre(nd)) /\ V1AuctionById(Pre(nd), a.id).start # a.start),
+   v1LongWaits |-> Cardinality({i \in 1..NLog : Nd(i).a = "V1Sweep" /\ \E v \in Range(Post(Nd(i)).vaults) : BadSweepsV1(i, v.id) >= 1}),
    v1Sweeps |-> Cnt(LAMBDA nd : nd.a = "V1Sweep"),
    v1ConfChecked |-> Cnt(LAMBDA nd : nd.a = "V1Liquidate" /\ ~Cfg(nd).interest /\ ~IsRoot(nd)),
    confChecked |-> Cnt(LAMBDA nd : nd.a \in VaultOps /\ ~Cfg(nd).interest /\ ~IsRoot(nd)) ]>>)
